@@ -1269,6 +1269,13 @@ void OPNMIDIplay::setErrorString(const std::string &err)
     errorStringOut = err;
 }
 
+bool OPNMIDIplay::isUserKeyDown(size_t c, const OpnChannel::LocationData &d) const
+{
+    MIDIchannel::notes_iterator
+    k = const_cast<MIDIchannel &>(m_midiChannels[d.loc.MidCh]).find_activenote(d.loc.note);
+    return !k.is_end() && k->value.phys_find(static_cast<unsigned>(c)) != NULL;
+}
+
 int64_t OPNMIDIplay::calculateChipChannelGoodness(size_t c, const MIDIchannel::NoteInfo::Phys &ins) const
 {
     Synth &synth = *m_synth;
@@ -1317,7 +1324,8 @@ int64_t OPNMIDIplay::calculateChipChannelGoodness(size_t c, const MIDIchannel::N
         const OpnChannel::LocationData &jd = j->value;
 
         int64_t kon_ms = jd.kon_time_until_neglible_us / 1000;
-        s -= (jd.sustained == OpnChannel::LocationData::Sustain_None) ?
+        // A note captured by sostenuto while its key is down is not a released one
+        s -= isUserKeyDown(c, jd) ?
             (4000000 + kon_ms) : (500000 + (kon_ms / 2));
 
         MIDIchannel::notes_iterator
@@ -1383,7 +1391,7 @@ void OPNMIDIplay::prepareChipChannelForNewNote(size_t c, const MIDIchannel::Note
         OpnChannel::LocationData &jd = jnext->value;
         ++jnext;
 
-        if(jd.sustained == OpnChannel::LocationData::Sustain_None)
+        if(isUserKeyDown(c, jd))
         {
             // Collision: Kill old note,
             // UNLESS we're going to do arpeggio
@@ -1533,8 +1541,8 @@ void OPNMIDIplay::killSustainingNotes(int32_t midCh, int32_t this_adlchn, uint32
                 if(hooks.onNote)
                     hooks.onNote(hooks.onNote_userData, static_cast<int>(c), jd.loc.note, midiins, 0, 0.0);
                 jd.sustained &= ~sustain_type;
-                if(jd.sustained == OpnChannel::LocationData::Sustain_None)
-                    m_chipChannels[c].users.erase(j);//Remove only when note is clean from any holders
+                if(jd.sustained == OpnChannel::LocationData::Sustain_None && !isUserKeyDown(c, jd))
+                    m_chipChannels[c].users.erase(j);//Remove only when note is clean from any holders (the own key too)
             }
         }
 
